@@ -728,6 +728,13 @@ func (t *tread) handle(cs *connState) message {
 		return newErr(linux.ENOBUFS)
 	}
 
+	// The reply must fit in the negotiated message size: shorten the read
+	// rather than exceed it.
+	count := t.Count
+	if max := cs.maxReplyPayload(); count > max {
+		count = max
+	}
+
 	var n int
 	data := cs.readBufPool.Get().(*[]byte)
 	// Retain a reference to the full length of the buffer.
@@ -745,7 +752,7 @@ func (t *tread) handle(cs *connState) message {
 				return linux.EPERM
 			}
 
-			n, err = ref.file.ReadAt(dataBuf[:t.Count], int64(t.Offset))
+			n, err = ref.file.ReadAt(dataBuf[:count], int64(t.Offset))
 			return err
 
 		case xattrWalk:
@@ -768,7 +775,7 @@ func (t *tread) handle(cs *connState) message {
 				return linux.EINVAL
 			}
 
-			n = copy(dataBuf[:t.Count], ref.pendingXattr.buf[t.Offset:])
+			n = copy(dataBuf[:count], ref.pendingXattr.buf[t.Offset:])
 			return nil
 		default:
 			return linux.EINVAL
@@ -1089,7 +1096,13 @@ func (t *treaddir) handle(cs *connState) message {
 		return newErr(err)
 	}
 
-	return &rreaddir{Count: t.Count, Entries: entries}
+	// The reply must fit in the negotiated message size: drop trailing
+	// entries rather than exceed it.
+	count := t.Count
+	if max := cs.maxReplyPayload(); count > max {
+		count = max
+	}
+	return &rreaddir{Count: count, Entries: entries}
 }
 
 // handle implements handler.handle.
